@@ -1,8 +1,9 @@
 (* C11 -- inline expressions: statements only; proofs are in the MPSV.Inline files. *)
 Require Import List String ZArith NArith QArith Qcanon Lia.
 Require Import MPSV.Inline.InlineModel MPSV.Inline.InlineDecl MPSV.Inline.InlineAlgebra
-               MPSV.Inline.InlineParse MPSV.Inline.InlineSound MPSV.Inline.InlineFormal
-               MPSV.Inline.InlineGrammar MPSV.Inline.Gen.GrammarGen MPSV.Inline.InlineGrammarShape.
+               MPSV.Inline.InlineParse MPSV.Inline.InlineParseMin MPSV.Inline.InlineSound MPSV.Inline.InlineFormal MPSV.Inline.InlineFormalInv
+               MPSV.Inline.InlineGrammar MPSV.Inline.Gen.GrammarGen MPSV.Inline.InlineGrammarShape
+               MPSV.Inline.InlineLR MPSV.Inline.Gen.AutomatonGen MPSV.Inline.InlineLRCheck.
 Import ListNotations.
 
 (* The reference semantics is ordinary algebra over the Gaussian rationals (a commutative ring
@@ -18,11 +19,12 @@ Example C11_denote_example :
   = Some [CofQ 4 1; C0; Copp C1].
 Proof. vm_compute. reflexivity. Qed.
 
-(* mps::formal::Polynomial as coded.  PARTIAL: the linear operations (+= Monomial with overwrite /
-   add / resize and trimming, += and -= of polynomials, the action of unary minus) are evaluation
-   homomorphisms.  Missing: the same for operator* (double loop, [fp_mul]) and preservation of the
-   normal form [fp_normal]; both are exercised, not proved: the extracted driver compares
-   [fp_denote] with [denote] on every input of the correspondence run (output FPDIFF otherwise). *)
+(* mps::formal::Polynomial as coded, evaluation part.  PARTIAL: the linear operations (+= Monomial with
+   overwrite / add / resize and trimming, += and -= of polynomials, the action of unary minus) are
+   evaluation homomorphisms.  Still missing: the same for operator* (double loop, [fp_mul]) and hence
+   for ^k; this is exercised, not proved: the extracted driver compares [fp_denote] with [denote] on
+   every input of the correspondence run (output FPDIFF otherwise).  The normal form and the class
+   invariant ARE proved for all operations including * and ^k: see C11_formal_invariant below. *)
 Theorem C11_formal_ring_hom_partial :
   (forall p m x, p <> [] -> fp_eval (fp_add_mono p m) x = Cadd (fp_eval p x) (Cmul (mc m) (Cpow x (md m)))) /\
   (forall p m, p <> [] -> fp_add_mono p m <> []) /\
@@ -36,12 +38,34 @@ Example C11_formal_example :   (* x - x is trimmed back to the constant polynomi
   /\ fp_ok (fp_of_mono (mkM C1 1)).
 Proof. split; [vm_compute; reflexivity|]. split; [discriminate|]. intros [|[|i]] Hi Hz; simpl in *; try reflexivity; try discriminate; lia. Qed.
 
+(* The class invariant of mps::formal::Polynomial -- vector never empty, a non-zero entry carries its index
+   as degree, no trailing zero except in the constant polynomial -- is established by `+= Monomial` from
+   any non-empty polynomial with consistent degrees, is preserved by +=, -=, operator* (double loop), ^k and
+   unary minus, and therefore holds for the polynomial the grammar actions build along ANY expression. *)
+Theorem C11_formal_invariant :
+  (forall p m, p <> [] -> entries_ok p -> fp_ok (fp_add_mono p m) /\ fp_normal (fp_add_mono p m)) /\
+  (forall p q, fp_inv p -> fp_inv (fp_add p q) /\ fp_inv (fp_sub p q)) /\
+  (forall p q, fp_inv (fp_mul p q)) /\ (forall b k, fp_inv (fp_pow b k)) /\ (forall p, fp_inv (fp_neg p)) /\
+  (forall e, fp_ok (fp_denote e) /\ fp_normal (fp_denote e)).
+Proof.
+  split; [exact fp_add_mono_inv|]. split; [intros p q H; split; [apply fp_add_inv | apply fp_sub_inv]; exact H|].
+  split; [exact fp_mul_inv|]. split; [exact fp_pow_inv|]. split; [exact fp_neg_inv | exact fp_denote_inv].
+Qed.
+Print Assumptions C11_formal_invariant.
+Example C11_formal_invariant_example :   (* (x+1)*(x-1) = x^2-1: the zero entry at index 1 keeps a stale degree field 0, non-zero entries carry their index *)
+  map md (fp_mul (fp_add (fp_of_mono (mkM C1 1)) (fp_of_mono (mkM C1 0))) (fp_sub (fp_of_mono (mkM C1 1)) (fp_of_mono (mkM C1 0)))) = [0; 0; 2]%nat.
+Proof. vm_compute. reflexivity. Qed.
+
 (* The reference parser inverts the fully parenthesised printer exactly, for every AST. *)
 Theorem C11_parse_ref_print_full : forall e, parse_ref (print_full e) = Some e.
 Proof. exact parse_ref_print_full. Qed.
 Print Assumptions C11_parse_ref_print_full.
-(* minimal parentheses: no general theorem (covered by the exhaustive depth-3 + random differential);
-   instances only *)
+(* ... and the minimal-parentheses printer (the one the generator of the correspondence check mostly
+   uses), exactly, for every AST: all placements of unary minus, nested and repeated powers, left/right
+   nested sums and products. *)
+Theorem C11_parse_ref_print_min : forall e, parse_ref (print e) = Some e /\ (forall e', parse_ref (print e) = Some e' -> denote e' = denote e).
+Proof. intros e. split; [exact (parse_ref_print_min e) | intros e' H; rewrite parse_ref_print_min in H; inversion H; reflexivity]. Qed.
+Print Assumptions C11_parse_ref_print_min.
 Example C11_print_minimal_example :
   let e := Sub (Mul (Neg (Pow X 2)) (Add X (Num 3 4 false))) (Neg (Pow (Neg (Num 2 1 true)) 3)) in
   parse_ref (print e) = Some e /\ parse_ref (print_full e) = Some e /\ length (print e) = 19%nat.
@@ -75,3 +99,38 @@ Print Assumptions C11_grammar_shape.
 Theorem C11_grammar_precedence : grammar_encodes_precedence grammar_gen = true.
 Proof. exact gen_precedence. Qed.
 Print Assumptions C11_grammar_precedence.
+
+(* The parser bison generates.  [automaton_gen] is bison's own LALR(1) table for the grammar file
+   (read from `bison -y --xml` on every run); [lr_run] is the table-driven driver of the yacc skeleton
+   with the semantic actions of yacc-parser.y lifted to ASTs.
+   For ALL inputs (by computation on the table): bison's rules are the productions of GrammarGen, every
+   shift/reduce conflict was resolved as yacc's precedence rule prescribes for the %left/%right/%prec
+   table of GrammarGen, and no (state, lookahead) pair was left to bison's defaults. *)
+Theorem C11_yacc_table_from_precedence :
+  rules_match grammar_gen automaton_gen = true /\
+  solved_by_precedence grammar_gen automaton_gen = true /\
+  deterministic automaton_gen = true.
+Proof. exact table_from_precedence. Qed.
+Print Assumptions C11_yacc_table_from_precedence.
+(* BOUNDED: on every token list of length <= 6 over one representative of each kind of token the
+   lexer can deliver (x, integer literal, rational with '/', decimal, i, + - * ^ ( )) the generated
+   parser accepts exactly what the reference parser accepts and builds the same AST.  (1 948 717
+   token lists, decided by the kernel's VM.)  Longer inputs: differential testing only. *)
+Theorem C11_yacc_agrees_ref_bounded : forall ys : list ytoken,
+  (List.length ys <= 6)%nat -> Forall (fun y => In y alphabet) ys ->
+  match lr_run automaton_gen ys, parse_ref (map snd ys) with
+  | LAccept e, Some e' => expr_eqb e e' = true
+  | LReject, None => True
+  | _, _ => False
+  end.
+Proof.
+  intros ys H1 H2. pose proof (yacc_agrees_ref_bounded ys H1 H2) as H. unfold agree in H.
+  destruct (lr_run automaton_gen ys); destruct (parse_ref (map snd ys)); try discriminate; auto.
+Qed.
+Print Assumptions C11_yacc_agrees_ref_bounded.
+Example C11_yacc_example :
+  lr_run automaton_gen [("MINUS", TMinus); ("MONOMIAL", TX); ("SUPERSCRIPT", TPow); ("RATIONAL", TNum 2 1 true);
+                        ("TIMES", TTimes); ("LEFT_BRACKET", TLP); ("MONOMIAL", TX); ("PLUS", TPlus);
+                        ("FLOATING_POINT", TNum 3 2 false); ("IMAGINARY_UNIT", TI); ("RIGHT_BRACKET", TRP)]%string
+  = LAccept (Mul (Neg (Pow X 2)) (Add X (Num 3 2 true))).
+Proof. vm_compute. reflexivity. Qed.
